@@ -363,10 +363,12 @@ class C17Conf(Suite):
     name = "nsconform"
     imports = "From RV Require Import Namespace.Model."
     case_ty = "case"
-    obs_ty = "obs"
+    obs_ty = "cobs"
     model = "conf_model"
     oeq = "conf_eqb"
     spec = "conf_spec"
+    kf = "conf_kf"
+    kf_ids = {3: "F6d"}
     corr = "Graph.bind/parse/serialize, NamespaceManager with bind_namespaces=rdflib|core|none (conformance only)"
     quick_n = 250
     thorough_n = 4000
@@ -414,6 +416,7 @@ class C17Conf(Suite):
 
     def run_impl(self, case):
         g = Graph(bind_namespaces=case["defaults"])
+        g.namespace_manager  # created lazily: the default prefixes are bound here
         names = sorted(set(case["iris"]) | {s for s in case_strings(case) if s in NAMESPACES or s in PREFIXES})
         obs = []
         for op in case["ops"]:
@@ -421,12 +424,7 @@ class C17Conf(Suite):
             if k == "parse":
                 fmt, data = DOCS[op[1]]
                 try:
-                    if fmt == "trig":
-                        ds = Dataset(store=g.store)
-                        ds.namespace_manager = g.namespace_manager
-                        ds.parse(data=data, format=fmt)
-                    else:
-                        g.parse(data=data, format=fmt)
+                    g.parse(data=data, format=fmt)
                     res = ["unit"]
                 except Exception as e:  # noqa: BLE001
                     res = ["exn", "ValueError" if not isinstance(e, KeyError) else "KeyError"]
@@ -453,11 +451,41 @@ class C17Conf(Suite):
     def coq_case(self, case):
         ops = []
         for op in self.expanded_ops(case):
-            ops.append("OOther" if op[0] in ("parse", "ser", "add") else c_op(op))
+            if op[0] == "parse":
+                ops.append("OOther 1%N" if DOCS[op[1]][0] == "json-ld" else "OOther 0%N")
+            elif op[0] in ("ser", "add"):
+                ops.append("OOther 0%N")
+            else:
+                ops.append(c_op(op))
         return "{| c_cats := []; c_ops := " + clist(ops) + " |}"
 
     def coq_obs(self, obs):
-        return clist(c_snap(s) for s in obs)
+        tab, idx = [], {}
+
+        def ix(x):
+            if x not in idx:
+                idx[x] = len(tab)
+                tab.append(x)
+            return cN(idx[x])
+
+        def ires(r):
+            k = r[0]
+            if k == "unit":
+                return "IUnit"
+            if k == "exn":
+                return "(IExn EKey)" if r[1] == "KeyError" else "(IExn EValue)" if r[1] == "ValueError" else f"(IS {ix('!!' + r[1])})"
+            if k == "q":
+                return f"(IQ {ix(r[1])} {ix(r[2][0])} {ix(r[2][1])} {ix(r[2][2])} {copt(r[3], ix)})"
+            if k == "t":
+                return f"(IT {ix(r[1][0])} {ix(r[1][1])} {ix(r[1][2])})"
+            return f"(IS {ix(r[1])})"
+
+        snaps = []
+        for s in obs:
+            snaps.append("{| i_res := " + ires(s["res"]) + "; i_list := " + clist(ctuple(ix(a), ix(b)) for a, b in s["list"])
+                         + "; i_rev := " + clist(ctuple(ix(a), ix(b)) for a, b in s["rev"]) + "; i_api := " + cbool(s["api"]) + " |}")
+        body = clist(snaps)  # fills the table
+        return ctuple(clist(cstr(x) for x in tab), body)
 
     def nontrivial(self, case, obs):
         kinds = {o[0] for o in case["ops"]}
